@@ -27,7 +27,9 @@ WHITE_BOX = ["PCACD._change_score (score history; decisions and num_pcs are comp
 
 def scenarios(tier):
     k = 1 if tier == "quick" else 8
-    return [("stream", 300 * k), ("repeat", 80 * k), ("long_step", 8 * k)]
+    # "marathon" (thorough only): one epoch with thousands of checks (anything that saturates or is trimmed after ~1000
+    # Page-Hinkley updates only shows there)
+    return [("stream", 300 * k), ("repeat", 80 * k), ("long_step", 8 * k)] + ([("marathon", 6)] if tier == "thorough" else [])
 
 
 def gen(rng, scenario, tier):
@@ -38,6 +40,16 @@ def gen(rng, scenario, tier):
         sp = 0.1
     cfg = {"window_size": w, "ev_threshold": rng.choice([0.7, 0.9, 0.99]), "delta": rng.choice([0.01, 0.05, 0.1]),
            "divergence_metric": rng.choice(["kl", "intersection"]), "sample_period": sp, "online_scaling": rng.random() < 0.6}
+    if scenario == "marathon":
+        # window 60: Page-Hinkley threshold 1 (no alarm on a stationary stream for a long time), a check on every sample
+        cfg.update(window_size=60, sample_period=0.017, divergence_metric="intersection", delta=rng.choice([0.15, 0.2]), online_scaling=rng.random() < 0.5)
+        rows, drifts = workload.mv_stream(rng, rng.randint(3500, 4500), d, drift_rate=0.0)
+        # a slowly growing shift in the last fifth: the alarm time then depends on the statistics of the whole long epoch
+        n0 = int(len(rows) * 0.8)
+        sd0 = max(1e-9, float(np.std([r[0] for r in rows[:200]])))
+        for j in range(n0, len(rows)):
+            rows[j] = [rows[j][0] + sd0 * 3.0 * (j - n0) / (len(rows) - n0)] + rows[j][1:]
+        return {"cfg": cfg, "events": rows, "drift_positions": [n0]}
     if scenario == "long_step":
         # sample_period * window_size > 100: the documented cap of the check period (100 samples) binds
         w = rng.choice([210, 240, 300])
